@@ -78,6 +78,7 @@ pub struct AdScript {
 #[derive(Default)]
 pub struct CallLog {
     pub calls: Vec<(u64, String)>,            // (virtual ms, Gallina `call`)
+    pub call_seq: Vec<u64>,
     pub results: HashMap<&'static str, String>, // kind -> Gallina `(cres, latency)`
     pub loc: Vec<(String, String)>,           // ((locale, key) Gallina, cres Gallina)
 }
@@ -96,7 +97,7 @@ fn adapter_err() -> passage_adapters::Error {
     passage_adapters::Error::AdapterUnavailable { adapter_type: "scripted", reason: "scripted failure" }
 }
 impl Scripted {
-    fn call(&self, term: String) { let t = self.pipe.now_ms(); self.log.lock().unwrap().calls.push((t, term)); }
+    fn call(&self, term: String) { let t = self.pipe.now_ms(); let mut l = self.log.lock().unwrap(); l.calls.push((t, term)); l.call_seq.push(next_seq()); }
     fn result(&self, kind: &'static str, term: String, lat: u64) {
         self.log.lock().unwrap().results.insert(kind, format!("({}, {})", term, lat));
     }
@@ -265,6 +266,8 @@ pub struct RunRecord {
     pub sent: Vec<(u64, i32, Vec<u8>)>,             // server frames, decrypted: (time, id, body)
     pub wire_out: Vec<(u64, Vec<u8>)>,              // accepted chunks as on the wire
     pub calls: Vec<(u64, String)>,
+    pub call_seq: Vec<u64>,
+    pub sent_seq: Vec<u64>,
     pub results: HashMap<&'static str, String>,
     pub loc: Vec<(String, String)>,
     pub outcome: String,                            // Gallina `outcome`
@@ -318,7 +321,7 @@ struct ClientState {
     parsed_upto: usize,       // bytes of the (decrypted) output stream parsed into frames
     plain_out: Vec<u8>,       // decrypted server output
     chunk_seen: usize,        // chunks of out_log consumed
-    chunk_ends: Vec<(usize, u64)>, // (cumulative plain length, time) per chunk
+    chunk_ends: Vec<(usize, u64, u64)>, // (cumulative plain length, time, seq) per chunk
     frames: Vec<(u64, i32, Vec<u8>)>,
     frame_cursor: usize,      // frames already matched by WaitServer
     in_config: bool,
@@ -386,15 +389,15 @@ pub fn run_scenario(sc: &Scenario, rng: &mut Rng) -> RunRecord {
         };
 
         let digest = |cs: &mut ClientState, rec: &mut RunRecord, echoes: &mut Vec<(u64, u64)>| {
-            let chunks: Vec<(u64, Vec<u8>)> = { let s = pipe.st.lock().unwrap(); s.out_log[cs.chunk_seen..].to_vec() };
-            for (t, c) in chunks {
+            let chunks: Vec<((u64, Vec<u8>), u64)> = { let s = pipe.st.lock().unwrap(); s.out_log[cs.chunk_seen..].iter().cloned().zip(s.out_seq[cs.chunk_seen..].iter().cloned()).collect() };
+            for ((t, c), sq) in chunks {
                 cs.chunk_seen += 1;
                 let mut p = c.clone();
                 if let Some(d) = cs.dec.as_mut() {
                     for b in p.chunks_mut(1) { d.decrypt_block_mut(GenericArray::from_mut_slice(b)); }
                 }
                 cs.plain_out.extend_from_slice(&p);
-                cs.chunk_ends.push((cs.plain_out.len(), t));
+                cs.chunk_ends.push((cs.plain_out.len(), t, sq));
                 // parse complete frames
                 loop {
                     let rest = &cs.plain_out[cs.parsed_upto..];
@@ -407,9 +410,10 @@ pub fn run_scenario(sc: &Scenario, rng: &mut Rng) -> RunRecord {
                     let body = inner[n2..].to_vec();
                     cs.parsed_upto += n1 + len as usize;
                     let end = cs.parsed_upto;
-                    let ft = cs.chunk_ends.iter().find(|(l, _)| *l >= end).map(|x| x.1).unwrap_or(t);
+                    let (ft, fsq) = cs.chunk_ends.iter().find(|(l, _, _)| *l >= end).map(|x| (x.1, x.2)).unwrap_or((t, sq));
                     cs.frames.push((ft, id, body.clone()));
                     rec.sent.push((ft, id, body.clone()));
+                    rec.sent_seq.push(fsq);
                     if !cs.in_config && id == 0x01 && body.len() > 10 {
                         // login EncryptionRequest: server id, public key, verify token, flag
                         let mut o = 0usize;
@@ -544,7 +548,7 @@ pub fn run_scenario(sc: &Scenario, rng: &mut Rng) -> RunRecord {
             None => { rec.outcome = "OHang".into(); rec.end_ms = pipe.now_ms(); }
         }
         let l = log.lock().unwrap();
-        rec.calls = l.calls.clone(); rec.results = l.results.clone(); rec.loc = l.loc.clone();
+        rec.calls = l.calls.clone(); rec.call_seq = l.call_seq.clone(); rec.results = l.results.clone(); rec.loc = l.loc.clone();
         let s = pipe.st.lock().unwrap();
         rec.wire_out = s.out_log.clone(); rec.reads = s.reads.clone(); rec.write_calls = s.write_calls.clone();
         rec
